@@ -11,6 +11,13 @@ Oracle (independent of the model): the same spend judged by the extracted Script
 (verify_spend_ext) with the valid (key, signature) table of that transaction:
   * interpreter accepts  =>  specification accepts            (else: false accept, the replay)
   * library satisfaction of a sane descriptor that the specification accepts  =>  interpreter accepts
+  * MUTATED spend the specification accepts, of a script that decode_consensus accepts in the output's
+    context  =>  interpreter accepts   (interp_complete against the Script semantics; else: false reject, keyed
+    by cause: base-sigversion-nonminimal-selector when the acceptance disappears once MINIMALIF is switched on
+    for the same script and stack, else unexplained-reject:<kind>:<mutation>).  Scripts that are miniscripts
+    only with the context's restrictions lifted (or_i / d: before segwit -- Coq's hypothesis [isel]) are refused
+    by from_txdata whatever the stack: counted (out_of_language), and the model run on the permissively decoded
+    miniscript must reject the non-minimal selectors as interp_complete_base_selector_refuted says.
   * reported constraints  =  checks of the executed path (extracted exec_tr/checks on the real script)
   * reported constraints satisfy the lifted policy (Descriptor::lift evaluated on the reported set)
 False accepts are keyed by their cause (smallest counterfactual that makes the specification accept):
@@ -118,6 +125,11 @@ def report(rep, r, seed, n, budget, only_sid=None):
                 rep.violation(cause, "interpreter accepts a spend real execution rejects (%s): %s mk=%s txv=%s lock=%s seq=%s" %
                               (cause, b.get("desc"), b.get("mk"), b.get("txv"), b.get("lock"), b.get("seq")),
                               dict(base, failed_clause="Interpreter accepts => verify_spend accepts", cause=cause), True)
+        elif what == "false-reject":
+            cause = b.get("cause", "unexplained-reject")
+            rep.violation(cause, "interpreter rejects (%s) a mutated spend real execution accepts (%s): %s mk=%s ssig=%s wit=%s" %
+                          (b.get("verdict"), cause, b.get("desc"), b.get("mk"), b.get("ssig"), b.get("wit")),
+                          dict(base, failed_clause="verify_spend accepts => Interpreter accepts (interp_complete beyond the satisfier's outputs)", cause=cause), True)
         elif what == "complete":
             rep.violation("complete:%s:%s" % (b.get("kind"), b.get("verdict")),
                           "library satisfaction of a sane descriptor rejected by the interpreter (%s): %s" % (b.get("verdict"), b.get("desc")),
@@ -190,6 +202,10 @@ def run(rep, tier, seed, replay):
         "mutation_kind_histogram": sub("mutation/"), "verdict_histogram": sub("verdict/"),
         "oracle_vs_impl": sub("oracle/"), "output_type_histogram": sub("kind/"), "environment_histogram": sub("env/"),
         "fragment_histogram": sub("frag/"),
+        # mutated spends of scripts outside the context's language (or_i / d: before segwit) that real execution
+        # accepts and from_txdata refuses to decode; on those with a non-minimal IF selector the extracted model,
+        # run on the permissively decoded miniscript, rejects too: coq's interp_complete_base_selector_refuted
+        "out_of_language_histogram": sub("lang/"), "refutation_reproduced": s.get("refutation_reproduced", 0),
         "model_runs_equal": s.get("model_eq", 0), "model_runs_different": s.get("model_diff", 0),
         "coq_sample_cases": len(r["coqcases"]), "coq_sample_ok": coq_ok,
         "samples": r["samples"][:12],
